@@ -280,6 +280,23 @@ template <class G, class F> void fill(G &g, Rng &r, unsigned n, F add) {
         VertexIndex j = r.chance(1, 8) ? i : r.u(n);
         add(g, i, j, t);
     }
+    // a past: 300-400 removals and re-additions (state that is maintained incrementally has been through its paces)
+    unsigned churn = 300 + r.u(101);
+    for (unsigned t = 0; t < churn; ++t) {
+        VertexIndex i = r.u(n), j = r.u(n);
+        if (g.hasEdge(i, j)) {
+            g.removeEdge(i, j);
+            if (r.chance(1, 2)) add(g, i, j, 5000 + t);
+        } else {
+            add(g, i, j, 6000 + t);
+            if (r.chance(1, 2)) g.removeEdge(i, j);
+        }
+    }
+    if (n >= 36 && n <= 48) { // dense: more than a thousand edges
+        for (unsigned a = 0; a < n; ++a)
+            for (unsigned b = 0; b < n; ++b)
+                if (r.chance(9, 10)) add(g, a, b, 9000 + a * n + b);
+    }
     if (n >= 40) { // scale: a hub joined to most vertices (long neighbour lists, wide BFS levels, many heap entries)
         VertexIndex hub = r.u(n);
         for (unsigned t = 0; t < n; ++t)
@@ -301,11 +318,11 @@ struct RaceCounters {
     std::map<std::string, uint64_t> opRuns;
 } RC;
 
-template <class G> void runCase(Reporter &R, const std::string &cls, const G &g, const G &other, const std::vector<Op<G>> &ops, unsigned T, unsigned opsPerThread, uint64_t sub) {
+template <class G> void runCase(Reporter &R, const std::string &cls, const G &g, const G &twin, const G &other, const std::vector<Op<G>> &ops, unsigned T, unsigned opsPerThread, uint64_t sub) {
     std::string dir = R.args.workDir.empty() ? "/tmp" : R.args.workDir;
-    // single-threaded baseline
+    // single-threaded baseline, computed on the twin
     std::vector<uint64_t> base(ops.size());
-    for (size_t k = 0; k < ops.size(); ++k) base[k] = ops[k].run(g, other, 99, dir);
+    for (size_t k = 0; k < ops.size(); ++k) base[k] = ops[k].run(twin, other, 99, dir);
     Shared sh;
     for (auto &c : sh.current) c.store(-1, std::memory_order_relaxed);
     std::vector<std::thread> th;
@@ -354,20 +371,24 @@ template <class G> void runCase(Reporter &R, const std::string &cls, const G &g,
 
 template <class G, class B, class O> void caseFor(Reporter &R, const char *cls, uint64_t sub, unsigned T, unsigned opsPerThread, B build, O opsOf) {
     Rng r = caseRng(R.args.seed, hashStr(std::string(cls) + "g"), sub);
-    G g(0), other(0);
+    G g(0), twin(0), other(0);
     unsigned n = 6 + r.u(7);
     if (sub % 4 == 3) {
-        n = 40 + r.u(61);
+        n = sub % 8 == 3 ? 36 + r.u(13) : 40 + r.u(61); // 36-48 vertices get a dense graph (files beyond 8 KiB), 40-100 a hub
         opsPerThread = std::max(8u, opsPerThread / 4);
     }
+    // g is what the threads read; `twin` is built by the very same calls and serves the single-threaded baseline, so that
+    // no const entry point has ever run on g before the threads start (lazily computed / first-call state stays cold)
+    Rng r2 = r;
     build(g, r, n);
-    if (sub % 2) other = g;
+    build(twin, r2, n);
+    if (sub % 2) other = twin;
     else build(other, r, n);
     static std::vector<Op<G>> ops;
     if (ops.empty()) opsOf(ops);
     R.counter("const_entry_points_" + std::string(cls) + "_max") = ops.size();
     R.distinct.insert(mix64(hashStr(cls), mix64(sub, T)));
-    runCase<G>(R, cls, g, other, ops, T, opsPerThread, sub);
+    runCase<G>(R, cls, g, twin, other, ops, T, opsPerThread, sub);
 }
 
 } // namespace
